@@ -617,6 +617,7 @@ fn c13_http_request_header() {
 //# cover: complete request answered
 //# cover: non-ASCII target answered
 #[kani::proof]
+#[kani::stub(::log::__private_api::loc, crate::verif_util::log_loc_stub)]
 #[kani::unwind(40)]
 #[kani::stub(crate::proto::http::http_init, crate::proto::http::verif_http_init_stub)]
 #[kani::stub(chrono::Utc::now, crate::verif_util::utc_now_stub)]
@@ -723,6 +724,7 @@ fn http_concrete(level: log::LevelFilter) {
 //# stubs: http_init -> real tables; chrono::Utc::now / to_rfc2822 -> fixed; alloc::fmt::format -> fixed text
 //# cover: concrete requests handled
 #[kani::proof]
+#[kani::stub(::log::__private_api::loc, crate::verif_util::log_loc_stub)]
 #[kani::unwind(40)]
 #[kani::stub(crate::proto::http::http_init, crate::proto::http::verif_http_init_stub)]
 #[kani::stub(chrono::Utc::now, crate::verif_util::utc_now_stub)]
